@@ -117,3 +117,11 @@ fn k_tbl_3_recycled_page_is_handed_out_once() {
     vcover!();
     std::mem::forget(t);
 }
+
+/// Helpers for harnesses outside this module (the pool's functions and `PageIndex::new` are private to `table`).
+pub(crate) fn page_index(n: usize) -> PageIndex {
+    PageIndex::new(n)
+}
+pub(crate) fn take_recycled(t: &Table, ing: IngredientIndex) -> Option<PageIndex> {
+    t.take_non_full_page(ing)
+}
